@@ -31,7 +31,7 @@ LInit(cfg, sc, viol) ==
      repeat |-> FALSE,
      sent |-> {}]
 
-AddViol(L, p, reason, l, ctx) == [L EXCEPT !.viol = Append(@, Viol(p, reason, l, L.sc, ctx))]
+AddViol(L, p, reason, l, ctx) == [L EXCEPT !.viol = IF Len(@) >= 2000 THEN @ ELSE Append(@, Viol(p, reason, l, L.sc, ctx))]
 
 LiveIds(L) == {L.live[i].id : i \in 1..Len(L.live)}
 CountCls(L, c) == Len(SelectSeq(L.live, LAMBDA ev : ev.cls = c))
